@@ -114,9 +114,9 @@ func (g *Gen) OlvmStory(id string, blocks int) *Scenario {
 				if c, ok := deployed["toggle"]; ok {
 					a["to"], a["amt"] = c, 0
 				}
-			case 4: // sequence number with a gap
+			case 4: // sequence number with a gap: passes the mempool check, must not execute
 				a["nonce"] = n + g.rng(1, 3)
-				class = "nonce:gap"
+				class, valid = "nonce:gap", false
 			case 5: // sequence number too low
 				if n > 0 {
 					a["nonce"] = g.R.Intn(n)
